@@ -21,7 +21,7 @@ tvars == <<bm, last, l>>
 ToSet(seq) == {seq[i] : i \in DOMAIN seq}
 
 \* specification handle rebuilt from a logged projection
-LoggedHandle(o) == IF o.live THEN [live |-> TRUE, bs |-> o.bsz, ps |-> o.ps, dirty |-> ToSet(o.bits)]
+LoggedHandle(o) == IF o.live THEN [live |-> TRUE, bs |-> o.bsz, ps |-> o.ps, dirty |-> ToSet(o.bits), tr |-> o.tr]
                    ELSE Dead
 Logged(e) == <<LoggedHandle(e.s.bm[1]), LoggedHandle(e.s.bm[2])>>
 
@@ -29,7 +29,7 @@ Logged(e) == <<LoggedHandle(e.s.bm[1]), LoggedHandle(e.s.bm[2])>>
 HandleOK(b, o) ==
     /\ o.live = b.live
     /\ b.live =>
-         /\ o.len = NP(b) /\ o.bsz = b.bs /\ o.ps = b.ps
+         /\ o.len = NP(b) /\ o.bsz = b.bs /\ o.ps = b.ps /\ o.tr = b.tr
          /\ ToSet(o.bits) = b.dirty                       \* scanned to len+70: nothing beyond len
          /\ \A x \in ToSet(o.aset) : PageOf(b, x) \in b.dirty
          /\ \A x \in ToSet(o.aclr) : PageOf(b, x) \notin b.dirty
@@ -47,7 +47,7 @@ TraceNext ==
     /\ l <= Len(Rec)
     /\ LET e == Rec[l] IN
          IF e.op = "init"
-         THEN LET t == <<Fresh(e.a.bs, e.a.ps), Dead>> IN
+         THEN LET t == <<IF e.a.tr THEN Fresh(e.a.bs, e.a.ps) ELSE Untracked(e.a.ps), Dead>> IN
               /\ Judge("state" \in Check => StateOK(t, e), "state", [exp |-> t])
               /\ bm' = Logged(e)
               /\ last' = [op |-> "init", a |-> e.a, r |-> Unit]
@@ -62,7 +62,7 @@ TraceNext ==
 TraceSpec == TraceInit /\ [][TraceNext]_tvars
 
 \* the implementation's own states must satisfy the state invariants of the specification
-TraceInRange == InRange
+TraceInRange == InRange /\ UntrackedClean
 
 Accepted ==
     LET d == TLCGet("stats").diameter IN
